@@ -18,7 +18,10 @@ class _CannotBeRenderedError(Exception):
 
 def get_literal_expr(obj: object) -> Optional[str]:
     if type(obj) in (int, str, bytes, bytearray):
-        return repr(obj)
+        try:
+            return repr(obj)
+        except ValueError:  # int exceeding the limit of digits for integer string conversion
+            return None
     if type(obj) is float:
         if math.isinf(obj) or math.isnan(obj):
             return None
